@@ -4,5 +4,6 @@ CONSTANTS MaxN = 6
           ChunkSz = 4
           MaxFiles = 2
           DeepN = {51}
+          DeepM = {1, 7}
 INVARIANTS AllFilesOK AppendPreserves AppendEqualsFresh
 CHECK_DEADLOCK FALSE
